@@ -68,7 +68,7 @@ OPTS = {"sgd": (torch.optim.SGD, {"lr": 0.1}), "adam": (torch.optim.Adam, {}), "
 def fit_case(draw):
     ul = draw(primary_spec(types=["BrownianStock", "HestonStock", "MertonJumpStock", "CIRRate"], dtype=None, cost=True,
                            dts=[1 / 250, 1 / 52], default_params=True))
-    model = draw(st.sampled_from(["mlp_lazy", "mlp", "linear_dropout", "lazylinear_dropout", "recurrent_dropout"]))
+    model = draw(st.sampled_from(["mlp_lazy", "mlp", "linear_dropout", "lazylinear_dropout", "recurrent_dropout", "mlp_sigmoid_out"]))
     opt_kind = draw(st.sampled_from(["default", "class", "class", "instance"]))
     return {
         "ul": ul, "model": model, "steps": draw(st.integers(2, 5)),
@@ -103,6 +103,8 @@ def build(case):
         inner = MultiLayerPerceptron(out_features=H, n_layers=2, n_units=4)
     elif m == "mlp":
         inner = MultiLayerPerceptron(3, H, n_layers=2, n_units=4)
+    elif m == "mlp_sigmoid_out":
+        inner = MultiLayerPerceptron(3, H, n_layers=1, n_units=4, out_activation=torch.nn.Sigmoid())
     elif m == "linear_dropout":
         inner = torch.nn.Sequential(torch.nn.Linear(3, 5), torch.nn.Dropout(0.5), torch.nn.Linear(5, H))
     elif m == "lazylinear_dropout":
